@@ -1,5 +1,5 @@
 SPECIFICATION Spec
-CONSTANTS Vals = {1, 2}  MaxMats = 2  NormVariant = "rowmajor"  SortVariant = "common"
+CONSTANTS Vals = {1, 2}  MaxMats = 2  AllFormatsUpTo = 1  NormVariant = "rowmajor"  SortVariant = "common"
 INVARIANT TypeOK
 INVARIANT NormalForm
 INVARIANT FormatIndependent
